@@ -18,7 +18,7 @@ theorem compose_sound (hP : Spec holds P) (c1 c2 c : Contract T) (keep : List Va
     (h : compose vars P c1 c2 keep simp ord = .ok c) :
     ∀ v, H holds c.a v → (H holds c1.a v → H holds c1.g v) → (H holds c2.a v → H holds c2.g v) →
       H holds c1.a v ∧ H holds c2.a v ∧ H holds c.g v :=
-  Alg.compose_sound holds vars P hP c1 c2 c keep simp ord h
+  Alg.compose_sound holds vars P hP c1 c2 c keep simp ord trivial h
 
 /-- quotient: any implementation of the divisor put together with any implementation of the quotient meets the
     dividend -/
@@ -26,7 +26,7 @@ theorem quotient_sound (hP : Spec holds P) (c c1 q : Contract T) (addl : List Va
     (h : quotient vars P c c1 addl simp ord = .ok q) :
     ∀ v, H holds c.a v → (H holds c1.a v → H holds c1.g v) → (H holds q.a v → H holds q.g v) →
       H holds c1.a v ∧ H holds q.a v ∧ H holds c.g v :=
-  Alg.quotient_sound holds vars P hP c c1 q addl simp ord h
+  Alg.quotient_sound holds vars P hP c c1 q addl simp ord trivial h
 
 /-- merging is the exact conjunction of the two viewpoints -/
 theorem merge_exact (hP : Spec holds P) (c1 c2 m : Contract T) (h : merge vars P c1 c2 = .ok m) :
